@@ -43,17 +43,20 @@ Own(clause) == \/ D.own = "ALL" \/ clause \in {"Trace_Malformed", "C15_NoExcepti
 Bad(cond, clause) == cond /\ Own(clause)
 Fail(st, clause) == [st EXCEPT !.err = clause]
 
+\* type ids: 1 and 2 are service types, 3 is a subtype of 1 -- a browser of type 1 learns (and must keep alive) its pointers too
+Tys == 1..3
+Tracks(st, ty) == ty \in st.types \/ (ty = 3 /\ 1 \in st.types)
 InitState ==
   [rec |-> [i \in Ids |-> None], lastDid |-> 0, lastProc |-> -100000, lastQU |-> FALSE,
    active |-> FALSE, types |-> {}, delay |-> 0, forced |-> "none", bs |-> 0, r |-> -1, nstart |-> 0, lastQ |-> -1,
-   hist |-> [ty \in 1..2 |-> [t |-> -100000, ka |-> {}]], canAns |-> {},
+   hist |-> [ty \in Tys |-> [t |-> -100000, ka |-> {}]], canAns |-> {},
    sat |-> {}, qT |-> -1, qKa |-> {}, qTypes |-> {}, qTc |-> FALSE, qNeed |-> {},
    hold |-> {}, lastTcSrc |-> 0,          \* truncated queries heard from the link, held per source until their continuation
    err |-> ""]
 
 WLo(r, k, delay) == r.c + (750 + 100 * k) * r.ttl - delay
 WHi(r, k, delay) == r.c + (750 + 100 * k) * r.ttl + (k + 1) * delay
-Mine(st, i) == st.active /\ st.rec[i] # None /\ TyOf(i) \in st.types
+Mine(st, i) == st.active /\ st.rec[i] # None /\ Tracks(st, TyOf(i))
 SteadyFrom(st) == st.bs + 120 + 14000
 
 (* a deadline has passed when the clock is strictly beyond the end of an unserved window *)
@@ -88,9 +91,9 @@ Pre(st0, t) ==
    per source address until a packet without TC arrives from that source or the (logged) hold time is over; the questions and
    known answers of all its packets then count as one query, heard at the arrival of its last packet. *)
 Assembled(st, pkts, t) ==
-  LET asked == {ty \in 1..2 : \E k \in 1..Len(pkts) : \E j \in 1..Len(pkts[k].hq) : pkts[k].hq[j].ty = ty /\ ~pkts[k].hq[j].qu}
+  LET asked == {ty \in Tys : \E k \in 1..Len(pkts) : \E j \in 1..Len(pkts[k].hq) : pkts[k].hq[j].ty = ty /\ ~pkts[k].hq[j].qu}
       ka == UNION {ToSet(pkts[k].hka) : k \in 1..Len(pkts)}
-  IN [st EXCEPT !.hist = [ty \in 1..2 |-> IF ty \in st.canAns /\ ty \in asked THEN [t |-> t, ka |-> ka] ELSE st.hist[ty]]]
+  IN [st EXCEPT !.hist = [ty \in Tys |-> IF ty \in st.canAns /\ ty \in asked THEN [t |-> t, ka |-> ka] ELSE st.hist[ty]]]
 HoldOf(st, src) == CHOOSE h \in st.hold : h.src = src
 HeardQuery(st, e) ==
   IF st.canAns = {} THEN st                                   \* nothing registered: queries are not looked at
@@ -168,14 +171,14 @@ Accumulate(st, e, t) ==
   [st EXCEPT !.qT = t, !.qKa = @ \cup {<<e.ka[k][1], e.ka[k][2]>> : k \in 1..Len(e.ka)},
              !.qTypes = @ \cup AskedTypes(e), !.qTc = e.tc,
              !.sat = @ \cup Served(st, AskedTypes(e), t),
-             !.hist = [ty \in 1..2 |-> IF \E q \in PtrQs(e) : q.ty = ty /\ ~q.qu
+             !.hist = [ty \in Tys |-> IF \E q \in PtrQs(e) : q.ty = ty /\ ~q.qu
                                         THEN [t |-> t, ka |-> KaIds(st, ty, t)] ELSE st.hist[ty]]]
 
 OnQuery(st, e) ==
   LET t == e.t
       tys == AskedTypes(e)
   IN IF ~st.active THEN Fail(st, "C10_QueryShape")
-     ELSE IF Bad(e.flags \div 32768 # 0 \/ e.nauth # 0 \/ e.nadd # 0 \/ ~(tys \subseteq st.types), "C10_QueryShape")
+     ELSE IF Bad(e.flags \div 32768 # 0 \/ e.nauth # 0 \/ e.nadd # 0 \/ ~(\A ty \in tys : ty \in Tys /\ Tracks(st, ty)), "C10_QueryShape")
           THEN Fail(st, "C10_QueryShape")
      ELSE IF st.qT = t
           THEN \* continuation packet of the same instant
@@ -195,7 +198,7 @@ OnQuery(st, e) ==
 
 (* a query heard from the link (or the own query looped back): remembered when this host could answer it *)
 Heard(st, e) ==
-  [st EXCEPT !.hist = [ty \in 1..2 |-> IF ty \in st.canAns /\ \E k \in 1..Len(e.hq) : e.hq[k].ty = ty /\ ~e.hq[k].qu
+  [st EXCEPT !.hist = [ty \in Tys |-> IF ty \in st.canAns /\ \E k \in 1..Len(e.hq) : e.hq[k].ty = ty /\ ~e.hq[k].qu
                                          THEN [t |-> e.t, ka |-> ToSet(e.hka)] ELSE st.hist[ty]]]
 
 Step(st0, e) ==
